@@ -40,6 +40,16 @@ def init (env : Env) (start tip0 : Nat) : DState :=
 def eventsIn (env : Env) (f t : Nat) : List (Nat × List Nat) :=
   (List.range' f (t + 1 - f)).filterMap (fun b => if env.chain b = [] then none else some (b, env.chain b))
 
+/-- `getEventsByBlockRangeWithRetry`: after `eth_getLogs` the header of every event block is fetched and its hash
+    compared with the logs'; on a mismatch (a reorg or a lagging backend in between) the WHOLE range is fetched again,
+    at most `MaxRetryCountBlockHashMismatch` = 5 times, then the function gives up and returns nothing (`none`).
+    `mism attempt b` = the header answer for block `b` disagrees during that attempt. -/
+def getEventsRetry (env : Env) (f t : Nat) (mism : Nat → Nat → Bool) : (left attempt : Nat) → Option (List (Nat × List Nat))
+  | 0, attempt => if (eventsIn env f t).any (fun b => mism attempt b.1) then none else some (eventsIn env f t)
+  | left + 1, attempt =>
+    if (eventsIn env f t).any (fun b => mism attempt b.1) then getEventsRetry env f t mism left (attempt + 1)
+    else some (eventsIn env f t)
+
 def report (env : Env) (fin : Nat) (blocks : List (Nat × List Nat)) : List Delivered :=
   blocks.map (fun b => { num := b.1, events := b.2, finalized := env.finalizedTag && decide (b.1 ≤ fin) })
 
